@@ -567,9 +567,28 @@ func init() {
 			cs = append(cs, CaseSpec{Kind: "history",
 				P: map[string]int64{"badger": 1, "cache": 3146, "joins": 2, "keepsilent": 0, "leaves": 1, "n": 5, "simultaneous": 1, "steps": 869, "suspendlimit": 1000000, "pin_seed": 1, "pin_index": 542},
 				S: map[string]string{"shape": "silent", "pin_tier": "thorough"}})
+			// real goroutines: a running network (background loop, timers, TCP) under
+			// crowds of concurrent clients and under paced submitters with injected
+			// delays; once every node is idle under its own lock, everything that was
+			// accepted must have been committed (decided on state; an expired
+			// watchdog alone is inconclusive)
+			lives := 2
+			if tier == "thorough" {
+				lives = 16
+			}
+			for i := 0; i < lives; i++ {
+				c := CaseSpec{Kind: "soak", P: map[string]int64{"n": int64(3 + i%3), "txs": 3000, "submitters": 60, "crowd": 1}}
+				if i%2 == 1 {
+					c.P = map[string]int64{"n": int64(3 + i%3), "txs": 240, "pace_us": 4000, "jitter": 1}
+				}
+				cs = append(cs, c)
+			}
 			return cs
 		},
 		Run: func(cs CaseSpec) *CaseResult {
+			if cs.Kind == "soak" {
+				return runLiveSoak(cs)
+			}
 			return runHistory(cs, func(nw *Network) []Monitor { return []Monitor{} }, func(nw *Network, res *CaseResult, cycles int, idle bool) {
 				checkLiveness(nw, res, cycles, idle, int(cs.I("fair", 60)))
 			})
